@@ -145,5 +145,8 @@ func HandleWorker(req map[string]json.RawMessage) map[string]interface{} {
 		}
 		return RealCompare(a, b)
 	}
+	if f, ok := extraWorkerOps[op]; ok {
+		return f(req)
+	}
 	return map[string]interface{}{"r": "bad-op"}
 }
